@@ -1,6 +1,7 @@
 package main
 
 import (
+	"crypto/sha256"
 	"fmt"
 	"go/ast"
 	"go/importer"
@@ -10,6 +11,7 @@ import (
 	"maps"
 	"os"
 	"path/filepath"
+	"slices"
 	"strings"
 	"sync"
 
@@ -133,12 +135,34 @@ func parseFiles(lpkg *listedPackage, dir string, paths []string, mainPatch bool)
 	return files, nil
 }
 
+// pkgCacheKey returns the key under which lpkg's pkgCache is stored.
+//
+// A pkgCache is "deep": it records the obfuscated names of reflected objects
+// declared in dependencies, and those names are derived from the dependencies'
+// GarbleActionIDs. A dependency's GarbleActionID can change, e.g. after editing
+// a function body in it, without lpkg's own action ID changing, so the key must
+// cover the GarbleActionIDs of all transitive dependencies as well.
+func pkgCacheKey(lpkg *listedPackage) [sha256.Size]byte {
+	lpkg.hasDep("") // fill allDeps
+	hasher := sha256.New()
+	hasher.Write(lpkg.GarbleActionID[:])
+	hasher.Write([]byte("\x00pkgcache-deps-v1\x00"))
+	for _, path := range slices.Sorted(maps.Keys(lpkg.allDeps)) {
+		if dep, ok := sharedCache.ListedPackages.get(path); ok {
+			hasher.Write(dep.GarbleActionID[:])
+		}
+	}
+	var sum [sha256.Size]byte
+	hasher.Sum(sum[:0])
+	return sum
+}
+
 func loadPkgCache(lpkg *listedPackage, pkg *types.Package, files []*ast.File, info *types.Info, ssaPkg *ssa.Package) (pkgCache, error) {
 	fsCache, err := openCache()
 	if err != nil {
 		return pkgCache{}, err
 	}
-	filename, _, err := fsCache.GetFile(lpkg.GarbleActionID)
+	filename, _, err := fsCache.GetFile(pkgCacheKey(lpkg))
 	verifhook.Event("pkgcache.get", "for", lpkg.ImportPath, "key", verifhook.Hex(lpkg.GarbleActionID[:8]), "hit", err == nil)
 	// Already in the cache; load it directly.
 	if err == nil {
@@ -188,7 +212,7 @@ func computePkgCache(fsCache *cache.Cache, lpkg *listedPackage, pkg *types.Packa
 		}
 		if err := func() error { // function literal for the deferred close
 			verifhook.Event("pkgcache.depget", "for", lpkg.ImportPath, "key", verifhook.Hex(lpkg.GarbleActionID[:8]))
-			if filename, _, err := fsCache.GetFile(lpkg.GarbleActionID); err == nil {
+			if filename, _, err := fsCache.GetFile(pkgCacheKey(lpkg)); err == nil {
 				// Cache hit; merge its entries into computed. We decode into a
 				// fresh value rather than onto computed, as msgp replaces maps
 				// rather than merging into them.
@@ -249,7 +273,7 @@ func computePkgCache(fsCache *cache.Cache, lpkg *listedPackage, pkg *types.Packa
 	}
 	verifhook.Event("pkgcache.put", "for", lpkg.ImportPath, "key", verifhook.Hex(lpkg.GarbleActionID[:8]), "digest", verifhook.BytesDigest(data), "names", len(computed.ReflectObjectNames), "apis", len(computed.ReflectAPIs))
 	verifhook.Point("pkgcache.beforePut")
-	if err := fsCache.PutBytes(lpkg.GarbleActionID, data); err != nil {
+	if err := fsCache.PutBytes(pkgCacheKey(lpkg), data); err != nil {
 		return pkgCache{}, err
 	}
 	return computed, nil
